@@ -989,8 +989,15 @@ class Rewriter:
         assert all(hasattr(x, 'lineno') and hasattr(x, 'colno') and hasattr(x, 'filename') for x in self.to_remove_nodes)
         assert all(isinstance(x, (ArrayNode, FunctionNode)) for x in self.modified_nodes)
         assert all(isinstance(x, (ArrayNode, AssignmentNode, FunctionNode)) for x in self.to_remove_nodes)
+        # A modified node inside another modified node is re-printed together with the outer one
+        def is_inside(inner: BaseNode, outer: BaseNode) -> bool:
+            return (inner is not outer and inner.filename == outer.filename
+                    and (outer.lineno, outer.colno) <= (inner.lineno, inner.colno)
+                    and (inner.end_lineno, inner.end_colno) <= (outer.end_lineno, outer.end_colno))
+
         # Sort based on line and column in reversed order
-        work_nodes = [{'node': x, 'action': 'modify'} for x in self.modified_nodes]
+        work_nodes = [{'node': x, 'action': 'modify'} for x in self.modified_nodes
+                      if not any(is_inside(x, y) for y in self.modified_nodes)]
         work_nodes += [{'node': x, 'action': 'rm'} for x in self.to_remove_nodes]
         work_nodes = sorted(work_nodes, key=lambda x: (T.cast(BaseNode, x['node']).lineno, T.cast(BaseNode, x['node']).colno), reverse=True)
         work_nodes += [{'node': x, 'action': 'add'} for x in self.to_add_nodes]
